@@ -1,7 +1,7 @@
 SPECIFICATION Spec
 CONSTANTS
-  MaxGrid = 10
-  MaxProc = 8
+  MaxGrid = 24
+  MaxProc = 32
   SharedSet <- BothShared
   SerialRule = "bins"
 INVARIANTS Covers Once SquareOffDiagonal ConflictFree BinsMonotone PassCount Emit
